@@ -214,6 +214,7 @@ func extra(c *core.Ctx, k *checker, t0 time.Time) {
 	configured(c, k, t0)
 	shortWrites(c, k, w, t0)
 	commandLine(c, k, t0)
+	longHistories(c, k, t0)
 }
 
 // ---- 10000+: a history continues after an interrupted rotation ----
